@@ -241,6 +241,23 @@ def object_protocol_rule(ctx, rule: str, clauses):
                     var = c.args[0].id if c.args and isinstance(c.args[0], ast.Name) else "?"
                     ok2 = any(norm(x) == f"remain.difference_update({var})" for x in before)
                     ctx.check(ok2, rule, f"{construct}:consumed", c, f"the keys given to the {kind} field are not removed from `remain`: they would also be reported as unexpected / given to the additional field", m, c, detail=f"remain.difference_update({var})")
+        if "discriminated" in clauses:
+            # a datum arriving through a DiscriminatorMethod is unwrapped: its discriminator key is remembered, its dict re-checked
+            branch = next((n for n in ast.walk(fn) if isinstance(n, ast.If) and norm(n.test) == "isinstance(data, Discriminated)"), None)
+            construct = f"{cls.name}:discriminated"
+            if branch is None:
+                ctx.fail(rule, construct, None, f"{cls.name}.deserialize no longer unwraps Discriminated data: members of a discriminated union are rejected (or the discriminator key reported as unexpected)", m.module.relpath, fn.lineno)
+            else:
+                texts = [norm(x) for x in branch.body]
+                i_d = next((i for i, t in enumerate(texts) if t.endswith("= data.discriminator")), None)
+                i_u = next((i for i, t in enumerate(texts) if t == "data = data.data"), None)
+                ok = i_d is not None and i_u is not None and i_d < i_u
+                var = texts[i_d].split(" = ")[0].split(":")[0].strip() if i_d is not None else None
+                ctx.check(ok, rule, construct, branch, "the Discriminated wrapper is not unwrapped as (discriminator key remembered, then data = data.data)", m, branch, detail="discriminator = data.discriminator; data = data.data")
+                rechecked = any(isinstance(x, ast.If) and norm(x.test) == "not isinstance(data, dict)" and any(isinstance(y, ast.Raise) for y in x.body) for x in branch.body[(i_u or 0):])
+                ctx.check(rechecked, rule, construct + ":recheck", branch, "the unwrapped datum is not re-checked to be a dict", m, branch, detail="if not isinstance(data, dict): raise bad_type")
+                uses = [c for c in ast.walk(fn) if isinstance(c, ast.Compare) and var and var in (norm(c.left), norm(c.comparators[0])) and norm(c.left) == "key" or (isinstance(c, ast.Compare) and var and norm(c.comparators[0]) == "key" and norm(c.left) == var)]
+                ctx.check(bool(uses), rule, construct + ":exempt", branch, f"the remembered discriminator key `{var}` is never compared with the undeclared keys: it is reported as an unexpected property", m, branch, detail="key != discriminator")
         # iteration source of the undeclared-key loops
         for kind in ("unexpected", "copy"):
             if kind not in clauses:
